@@ -275,6 +275,8 @@ func RunC10(rep *explore.Report, tier string) {
 		}
 	}
 	RunGrid(rep, grid, Visitors["C10"], GridOpts{Property: "C10", MaxState: 3000000})
+	// the same oracle on genuinely uninterrupted objects (pure replay, no state cloning)
+	RunGrid(rep, ReplayGrid(tier), Visitors["C10"], GridOpts{Property: "C10", MaxState: 300000, Mode: "replay"})
 	rep.Set("distinct_nontrivial", rep.Get("subdeck_situations"))
 	rep.Set("evaluations", rep.Get("subdeck_situations")+rep.Get("reported_hands_checked"))
 }
